@@ -33,6 +33,25 @@ func vTxBytesModel(msg *wire.MsgTx, mode wire.CodecMode) ([]byte, error) {
 	return []byte{0xA7, byte(len(vTxReg) - 1)}, nil
 }
 
+// model of the transaction id (symbolic runs only): an arbitrary 32-byte value per transaction object, the same
+// on every call; the harnesses assume the ids they compare distinct (double SHA-256 is collision free for the
+// purposes of every property here). Native replays compute the real id.
+var vTxIDReg []*wire.MsgTx
+var vTxIDs []wire.Hash
+var vTxIDSeeds []wire.Hash // drawn by the harness (in native runs too, so that replays read the same value sequence)
+
+func vTxHashModel(msg *wire.MsgTx) wire.Hash {
+	for i, t := range vTxIDReg {
+		if t == msg {
+			return vTxIDs[i]
+		}
+	}
+	vTxIDReg = append(vTxIDReg, msg)
+	vTxIDs = append(vTxIDs, vTxIDSeeds[0])
+	vTxIDSeeds = vTxIDSeeds[1:]
+	return vTxIDs[len(vTxIDs)-1]
+}
+
 func vTxSetBytesModel(msg *wire.MsgTx, bs []byte, mode wire.CodecMode) error {
 	if len(bs) != 2 || bs[0] != 0xA7 || int(bs[1]) >= len(vTxReg) {
 		return errors.New("proto: cannot decode transaction")
@@ -65,7 +84,11 @@ type vApply struct {
 // vApplySetup: wallet W owns one mature-or-not coin C (arbitrary outpoint/height/amount); transaction T has
 // two inputs, one of which (position relIn, arbitrary) spends C, and pays output 0 to a script of W.
 // Optionally T is already pending, with a pending child spending T's output 0.
-func vApplySetup() *vApply {
+func vApplySetup() *vApply { return vApplySetupID(false) }
+
+// realID: the record's id is the transaction's TxHash() (the id model under the symbolic executor), and T is
+// not pending beforehand.
+func vApplySetupID(realID bool) *vApply {
 	a := &vApply{s: verifNewStores(verifWID)}
 	s := a.s
 	shIn := rt.NondetBytes(32)
@@ -73,7 +96,7 @@ func vApplySetup() *vApply {
 	a.coin.flags.Class = ClassStandardUtxo
 	vPutCredit(s, verifWID, a.coin)
 	a.balBefore = a.coin.amount.UintValue()
-	vTxReg = nil
+	vTxReg, vTxIDReg, vTxIDs = nil, nil, nil
 	a.shOut = rt.NondetBytes(32)
 	tx := wire.NewMsgTx()
 	a.relIn = rt.NondetLen(0, 1)
@@ -89,14 +112,20 @@ func vApplySetup() *vApply {
 	rt.Assume(!blockchain.IsCoinBaseTx(tx))
 	a.outValue = uint64(rt.NondetU32()) + 1
 	tx.AddTxOut(wire.NewTxOut(int64(a.outValue), vP2WSH(a.shOut)))
-	a.rec = &TxRecord{MsgTx: *tx, Hash: vHash(), TxLoc: &wire.TxLoc{TxStart: 100, TxLen: 200}}
+	a.rec = &TxRecord{MsgTx: *tx, TxLoc: &wire.TxLoc{TxStart: 100, TxLen: 200}}
+	if realID {
+		vTxIDSeeds = []wire.Hash{vHash()}
+		a.rec.Hash = a.rec.MsgTx.TxHash()
+	} else {
+		a.rec.Hash = vHash()
+	}
 	// a transaction cannot spend its own outputs, and transaction ids are distinct
 	rt.Assume(a.rec.Hash != a.coin.outPoint.Hash && a.rec.Hash != other.Hash)
 	a.rec.RelevantTxIn = []*RelevantMeta{{Index: a.relIn, PkScript: vPk(vP2WSH(shIn)), WalletId: verifWID}}
 	a.rec.RelevantTxOut = []*RelevantMeta{{Index: 0, PkScript: vPk(vP2WSH(a.shOut)), WalletId: verifWID}}
 	a.block = &BlockMeta{Height: rt.NondetU64(), Hash: vHash(), Loc: &database.BlockLoc{File: 1, Offset: 2, Length: 3}}
 	rt.Assume(a.block.Height > a.coin.block.Height && a.block.Height < vMaxHeight)
-	a.wasPending = rt.NondetBool()
+	a.wasPending = !realID && rt.NondetBool()
 	if a.wasPending {
 		// T pending: record, input markers; a pending child spends T's output 0
 		err := mwdb.Update(s.db, func(dbtx mwdb.DBTransaction) error { return s.tx.insertMemPoolTx(dbtx, a.rec) })
